@@ -1,16 +1,17 @@
 #!/bin/bash
 # usage: tools/mutsweep.sh <tier> <glob of /verif/seeded dirs, e.g. 'C0*-mutC'>...   — run each seeded change's property check against a scratch copy of /repo with the change applied
 tier=$1; shift
-mkdir -p /tmp/mutrepo
+V=$(cd "$(dirname "$0")/.." && pwd)
+mkdir -p /tmp/mutrepo$$
 for pat in "$@"; do
-  for d in /verif/seeded/$pat; do
+  for d in $V/seeded/$pat; do
     [ -f "$d/patch.diff" ] || continue
     name=$(basename $d); p=${name%%-*}
-    c=/tmp/mutrepo/$name
+    c=/tmp/mutrepo$$/$name
     rm -rf $c && mkdir -p $c && (cd /repo && git archive HEAD | tar -x -C $c) && cd $c && git init -q . >/dev/null 2>&1
     if git apply --check "$d/patch.diff" 2>/dev/null; then git apply "$d/patch.diff"; else echo "$name PATCH-DOES-NOT-APPLY"; rm -rf $c; continue; fi
     s=$(date +%s)
-    out=$(cd /verif && FLYT_REPO=$c ./check $p $tier 2>&1 | grep -E "VIOLATION|held on|KNOWN" | head -3 | tr '\n' ' ')
+    out=$(cd $V && FLYT_REPO=$c ./check $p $tier 2>&1 | grep -E "VIOLATION|held on|KNOWN" | head -3 | tr '\n' ' ')
     e=$(date +%s)
     echo "$name $((e-s))s :: $out"
     rm -rf $c
